@@ -1023,10 +1023,10 @@ static SpellTable make_spelling(Choice& ch0, uint64_t salt, const std::vector<in
     static const std::vector<std::vector<Spelling>> menu = {
         {{'c', "a", "a"}, {'s', "al", "al"}, {'r', "a[0-9]+", "anum"}, {'T', "a[0-9]+", "number"}},
         {{'c', "b", "b"}, {'s', "be", "be"}, {'s', "b", "b"}, {'R', "b[0-9]+", "r_b[0-9]+"}},
-        {{'c', "c", "c"}, {'s', "<=", "<="}, {'s', "if", "if"}, {'t', "c", "c"}},
+        {{'c', "c", "c"}, {'s', "<=", "<="}, {'s', "if", "if"}, {'t', "c", "c"}, {'c', "\x11", "\\x11"}},       // control characters whose \xHH names share a digit with '\x01' (same low nibble) ...
         {{'c', "d", "d"}, {'s', "<", "<"}, {'s', "i", "i"}, {'r', "d[0-9]+", "dnum"}, {'s', ";\n", ";\n"}},           // a string term with a line break inside
         {{'c', "e", "e"}, {'s', "end", "end"}, {'c', "\x01", "\\x01"}, {'s', "en", "en"}, {'c', std::string(1, '\0'), "\\x00"}},   // a char term that is the NUL byte
-        {{'c', "f", "f"}, {'s', "==", "=="}, {'c', "=", "="}, {'t', "f", "f"}}};
+        {{'c', "f", "f"}, {'s', "==", "=="}, {'c', "=", "="}, {'t', "f", "f"}, {'c', "\x0e", "\\x0e"}}};                        // ... or its 16-block
     SpellTable t;
     for (size_t i = 0; i < 6; ++i) t.sp.push_back(menu[i][ch.below(uint32_t(menu[i].size() > 4 && ch.chance(1, 4) ? menu[i].size() : 4))]);
     if (getenv("EMIT_NAMED_TERMS"))
@@ -1034,6 +1034,8 @@ static SpellTable make_spelling(Choice& ch0, uint64_t salt, const std::vector<in
         t.sp[0] = menu[0][3 - ch.below(2)];      // typed(named regex) by default, plain named regex sometimes
         if (ch.chance(1, 2)) t.sp[3] = menu[3][3];
     }
+    // several control-character char terms at once (their ids are generated \xHH strings): C11's, C17's and C01's programs
+    if (getenv("EMIT_CONTROL_TERMS") && ch.chance(1, 2)) { t.sp[4] = menu[4][2]; if (ch.chance(2, 3)) t.sp[2] = menu[2][4]; if (ch.chance(2, 3)) t.sp[5] = menu[5][4]; }
     // C10's programs: a string term with a line break inside is frequent; C07's programs: a char term that is the NUL byte - both on terminals the grammar uses
     if (getenv("EMIT_NEWLINE_TERM") && ch.chance(2, 3) && !used.empty()) t.sp[size_t(used[ch.below(uint32_t(used.size()))])] = menu[3][4];
     if (getenv("EMIT_NUL_TERM") && ch.chance(1, 2) && !used.empty()) { int u = used[ch.below(uint32_t(used.size()))]; if (t.sp[size_t(u)].text != menu[3][4].text) t.sp[size_t(u)] = menu[4][4]; }
